@@ -7,6 +7,7 @@ import LexVerif.Proof.WriteRadixRound
 import LexVerif.Proof.WriteRadixError
 import LexVerif.Proof.WriteRadixMid
 import LexVerif.Proof.WriteRadixBig
+import LexVerif.Proof.WriteRadixSmall
 import Mathlib.Tactic.SplitIfs
 /-!
 # C07 — generic-radix float output
@@ -17,7 +18,8 @@ import Mathlib.Tactic.SplitIfs
 3. `RadixFull`: theorems about the WHOLE writer `Model/WriteRadix.lean` (hardware arithmetic modelled exactly as
    "exact result, then round to nearest even"; tied to radix.rs byte-for-byte by the `wf` correspondence):
    well-formedness (3a), termination / fuel adequacy (3b), integer exactness with the `IeeeExact` assumption discharged
-   (3c), and the exact part of the error analysis (3d). The ulp bound itself stays `C07_radix_error_bound : Prop`.
+   (3c), and the ulp clause (3d): `radix_error_bound : C07_radix_error_bound` — the digits denote a number whose nearest
+   float is within 1364 (f64) / 246 (f32) patterns of the input — with the text-level exclusion `PositionalFits`.
 -/
 namespace LexVerif.Props.C07
 open LexVerif.Spec LexVerif.Proof.RoundNE LexVerif.Props.RoundNE
@@ -122,7 +124,7 @@ open LexVerif.Model LexVerif.Model.WriteRadix LexVerif.Model.WriteRadixInt
 open LexVerif.Proof.WriteRadixF LexVerif.Proof.WriteRadixWF LexVerif.Proof.WriteRadixTerm
 open LexVerif.Proof.WriteRadixTermInt LexVerif.Proof.WriteRadixFrac LexVerif.Proof.WriteRadixInteger
 open LexVerif.Proof.WriteRadixRound LexVerif.Proof.WriteRadixError LexVerif.Proof.WriteRadixMid
-open LexVerif.Proof.WriteRadixBig
+open LexVerif.Proof.WriteRadixBig LexVerif.Proof.WriteRadixSmall
 open LexVerif.Model.WriteInt (Res)
 
 /-- binary32 or binary64 (radix.rs runs in the float's own type) -/
@@ -414,10 +416,7 @@ ulp of a float below 64):
     | fraction · rⁿ  −  (d₁…dₙ)ᵣ · U  −  fractionₙ |  ≤  B · (1 + r + … + rⁿ⁻¹)
 
 i.e. `|fraction − 0.d₁…dₙ − fractionₙ·r⁻ⁿ| < 2^(5−p)/(r−1)` — an ABSOLUTE error below `2^-48/(r−1)` (f64),
-`2^-19/(r−1)` (f32). Missing for `C07_radix_error_bound`: (1) for floats below 1 the RELATIVE version during the leading
-zero digits (there `round(x·r)` is the new fraction and the error is `≤ 2^-p` relative per step — this is where the
-hundreds of ulps come from); (2) the exit residual `fractionₙ ≤ deltaₙ ≈ delta₀·rⁿ` and the unit added by the round-up;
-(3) integer digits of floats `≥ 2^p` (zero padding); (4) turning the value distance into a pattern distance. -/
+`2^-19/(r−1)` (f32). (Used for `1 ≤ |x| < 2^p`; below 1 the RELATIVE version `fracIter_rel` is needed.) -/
 theorem radix_fraction_error_partial (cf : Bool) {f : Fmt} (hf : StdFmt f) {r : Nat} (hr36 : r ≤ 36)
     {fuel x delta : Nat} {acc : List Nat} {out : List Nat × List Nat × Bool} (hx : x ≤ one f)
     (h : fracLoop cf f r (ofNat f r) fuel x delta acc = .ok out) :
@@ -451,8 +450,8 @@ theorem radix_fraction_digit_lt {f : Fmt} (hf : StdFmt f) {r : Nat} (hr : r ∈ 
     (hx : x < one f) : asU32 f (fmul f x (ofNat f r)) < r :=
   fracDigit_lt hf.fok (genericRadices_bounds r hr).2 (hf.radix_lt (genericRadices_bounds r hr).2) (hf.predOne hr) hx
 
-/-- **C07 ulp clause, full statement (proved parts: `radix_error_bound_mid_partial`; otherwise measured by the exact
-judge on every output of the stream).**
+/-- **C07 ulp clause, full statement (digit level) — proved below as `radix_error_bound` from the three range theorems
+`radix_error_bound_small_partial`, `radix_error_bound_mid_partial`, `radix_error_bound_big_partial`.**
 For every finite binary32/binary64 pattern and every generic radix, the digits `ints . fracs` the writer generates
 denote a number whose nearest float is within 2048 (f64) / 256 (f32) patterns of the input. -/
 def C07_radix_error_bound : Prop :=
@@ -497,6 +496,20 @@ theorem radix_error_bound_big_partial {f : Fmt} (hf : StdFmt f) {r : Nat} (hr : 
   · exact error_big bigFmt_f64 h3 h36 h1 h2 hg
   · exact error_big bigFmt_f32 h3 h36 h1 h2 hg
 
+/-- **C07 ulp clause, proved for `0 ≤ |x| < 1`** (zero, subnormals and every float below 1), every generic radix: the
+float is its own fraction; every `round(fraction · base)` has a RELATIVE error `≤ 2^-p` (exact for subnormal results), the
+telescoped error after `N` digits is `≤ (N + 1)` ulps of the input, the exit residual `≤ 2` ulps, and `N ≤ 679` / `95`
+because `delta` grows by a factor `≥ 3(1 − 2^-p)` per step and the loop ends once `delta ≥ 1`. The nearest float of the
+digits is at most **1364 patterns (binary64) / 196 patterns (binary32)** from the input (limits 2048 / 256). -/
+theorem radix_error_bound_small_partial {f : Fmt} (hf : StdFmt f) {r : Nat} (hr : r ∈ genericRadices) {bits : Nat}
+    (h1 : bits < one f) {g : Gen} (hg : generate true f r bits = .ok g) :
+    ulpDist (roundNE f (ofDigits r ((g.ints ++ g.fracs).map byteDigit)) (r ^ g.fracs.length)) bits
+      ≤ (if f = f64 then 1364 else 196) := by
+  obtain ⟨h3, h36⟩ := genericRadices_bounds r hr
+  rcases hf with rfl | rfl
+  · exact error_small smallFmt_f64 h3 h36 (predOne_table_f64 r hr) h1 hg
+  · exact error_small smallFmt_f32 h3 h36 (predOne_table_f32 r hr) h1 hg
+
 /-- the range of `radix_error_bound_mid_partial` in bit patterns: `[1.0, 2^p)` -/
 example : one f64 = 0x3ff0000000000000 ∧ (f64.bias + f64.p) * 2 ^ (f64.p - 1) = 0x4340000000000000
     ∧ one f32 = 0x3f800000 ∧ (f32.bias + f32.p) * 2 ^ (f32.p - 1) = 0x4b800000 := by decide +kernel
@@ -526,6 +539,26 @@ theorem positional_truncation_witness :
     ∧ (layoutAll fmt3 featsRadix { negBreak := some (-700) } g).bind (fun t => .ok t.text)
         = .ok ([48, 46] ++ List.replicate 232 48 ++ [49]) := by
   refine ⟨by decide +kernel, by decide +kernel, by decide +kernel⟩
+
+/-- **C07 ulp clause — the full statement is a theorem** (digit level): the three ranges `[0,1)`, `[1,2^p)`, `[2^p,∞)`
+cover every finite pattern; proved constants 1364 (binary64) and 246 (binary32), below the judge's 2048 / 256. What the
+TEXT denotes equals what the digits denote when the layout keeps all digits: default `max_significant_digits` and
+`PositionalFits` (`radix_layout_keeps_all_digits`; always true for `1 ≤ |x| < 2^p`); the excluded case is the recorded
+finding C07-generic-radix-positional-truncation (`positional_truncation_witness`). -/
+theorem radix_error_bound : C07_radix_error_bound := by
+  intro f hf r hr bits hb g hg
+  by_cases h1 : bits < one f
+  · have := radix_error_bound_small_partial hf hr h1 hg
+    rcases hf with rfl | rfl
+    · simp only [if_true] at this ⊢; omega
+    · rw [if_neg (by decide)] at this ⊢; omega
+  · by_cases h2 : bits < (f.bias + f.p) * 2 ^ (f.p - 1)
+    · have := (radix_error_bound_mid_partial hf hr (Nat.le_of_not_lt h1) h2 hg).1
+      split <;> omega
+    · have := radix_error_bound_big_partial hf hr (Nat.le_of_not_lt h2) hb hg
+      rcases hf with rfl | rfl
+      · simp only [if_true] at this ⊢; omega
+      · rw [if_neg (by decide)] at this ⊢; omega
 
 end RadixFull
 
